@@ -16,7 +16,8 @@ import (
 )
 
 type World struct {
-	tags []TagDecl
+	tags      []TagDecl
+	writers   []WritersDecl
 	repo      string
 	fset      *token.FileSet
 	prog      *ssa.Program
@@ -134,6 +135,7 @@ func (w *World) addSpec(sf *SpecFile) {
 		w.specTypes[n] = t
 	}
 	w.tags = append(w.tags, sf.Tags...)
+	w.writers = append(w.writers, sf.Writers...)
 	w.axioms = append(w.axioms, sf.Axioms...)
 	for range sf.Axioms {
 		w.axiomPkg = append(w.axiomPkg, sf.PkgName)
@@ -435,6 +437,189 @@ func (w *World) tagObligations(prop string) *FuncResult {
 		}
 		res.Obls = append(res.Obls, &Obl{Name: "tag{" + td.Path + "}", Goal: goal, Kind: "tag", Fn: "struct-tags", Prop: []string{prop}})
 		res.Notes = append(res.Notes, "struct tags are compared syntactically; their meaning is govalidator's / yaml's (assumed)")
+	}
+	return res
+}
+
+// containsNamed: does a value of type t hold a value of the named struct type target (by value)?
+func containsNamed(t types.Type, target *types.Named, depth int) bool {
+	if depth > 6 {
+		return false
+	}
+	if n, ok := t.(*types.Named); ok && n.Obj() == target.Obj() {
+		return true
+	}
+	switch u := t.Underlying().(type) {
+	case *types.Struct:
+		for i := 0; i < u.NumFields(); i++ {
+			if containsNamed(u.Field(i).Type(), target, depth+1) {
+				return true
+			}
+		}
+	case *types.Array:
+		return containsNamed(u.Elem(), target, depth+1)
+	}
+	return false
+}
+
+// writersObligations: "the only functions that store to field F of struct T are these" (see WritersDecl).  A store is:
+// a Store through the field's address; any use of the field's address other than loading from it (the address
+// escapes); a whole-struct Store of a value holding a T to anything but a fresh local; a map update with such a value.
+// For "T.F[]": a map update or delete on a map of the field's type.  Closures count for their enclosing function.
+// Every listed writer must exist and be under a (non-extern) contract.
+func (w *World) writersObligations(prop string) *FuncResult {
+	res := &FuncResult{Fn: "field-writers", StrLits: map[string]string{}}
+	for _, wd := range w.writers {
+		hit := false
+		for _, p := range wd.Serves {
+			if p == prop {
+				hit = true
+			}
+		}
+		if !hit {
+			continue
+		}
+		path := strings.TrimSuffix(wd.Path, "[]")
+		elems := strings.HasSuffix(wd.Path, "[]")
+		parts := strings.Split(path, ".")
+		var named *types.Named
+		var fieldT types.Type
+		fieldIdx := -1
+		if len(parts) == 3 {
+			for _, pkg := range w.prog.AllPackages() {
+				if pkg.Pkg.Name() != parts[0] || !strings.HasPrefix(pkg.Pkg.Path(), w.modPath) {
+					continue
+				}
+				obj := pkg.Pkg.Scope().Lookup(parts[1])
+				if obj == nil {
+					continue
+				}
+				n, ok := obj.Type().(*types.Named)
+				if !ok {
+					continue
+				}
+				if st, ok := n.Underlying().(*types.Struct); ok {
+					for i := 0; i < st.NumFields(); i++ {
+						if st.Field(i).Name() == parts[2] {
+							named, fieldIdx, fieldT = n, i, st.Field(i).Type()
+						}
+					}
+				}
+			}
+		}
+		var problems []string
+		if named == nil {
+			problems = append(problems, "no such field in the current tree")
+		}
+		allowed := map[string]bool{}
+		for _, a := range wd.Allowed {
+			allowed[a] = true
+			fc := w.contracts[a]
+			if _, ok := w.fnByKey[a]; !ok {
+				problems = append(problems, "listed writer "+a+" does not exist")
+			} else if fc == nil || fc.Extern {
+				problems = append(problems, "listed writer "+a+" is not under contract")
+			}
+		}
+		found := map[string]string{}
+		if named != nil {
+			for fn := range ssautil.AllFunctions(w.prog) {
+				if fn.Pkg == nil || !strings.HasPrefix(fn.Pkg.Pkg.Path(), w.modPath) || fn.Blocks == nil {
+					continue
+				}
+				root := fn
+				for root.Parent() != nil {
+					root = root.Parent()
+				}
+				key := fnKey(root)
+				note := func(pos token.Pos, what string) {
+					if _, ok := found[key]; !ok {
+						found[key] = what + " at " + w.fset.Position(pos).String()
+					}
+				}
+				for _, b := range fn.Blocks {
+					for _, in := range b.Instrs {
+						switch x := in.(type) {
+						case *ssa.FieldAddr:
+							if elems || x.Field != fieldIdx {
+								continue
+							}
+							pt, ok := x.X.Type().Underlying().(*types.Pointer)
+							if !ok {
+								continue
+							}
+							n, ok := pt.Elem().(*types.Named)
+							if !ok || n.Obj() != named.Obj() {
+								continue
+							}
+							for _, r := range *x.Referrers() {
+								switch u := r.(type) {
+								case *ssa.UnOp:
+									if u.Op == token.MUL {
+										continue
+									}
+									note(u.Pos(), "address used")
+								case *ssa.DebugRef:
+								case *ssa.Store:
+									if u.Addr == ssa.Value(x) {
+										note(u.Pos(), "store")
+									} else {
+										note(u.Pos(), "address stored")
+									}
+								default:
+									note(r.Pos(), "address escapes")
+								}
+							}
+						case *ssa.Store:
+							if elems {
+								continue
+							}
+							if _, local := x.Addr.(*ssa.Alloc); local {
+								continue
+							}
+							if containsNamed(x.Val.Type(), named, 0) {
+								if _, isStruct := x.Val.Type().Underlying().(*types.Struct); isStruct {
+									note(x.Pos(), "whole-struct store")
+								}
+							}
+						case *ssa.MapUpdate:
+							if elems {
+								if types.Identical(x.Map.Type().Underlying(), fieldT.Underlying()) {
+									note(x.Pos(), "map update")
+								}
+							} else if _, isStruct := x.Value.Type().Underlying().(*types.Struct); isStruct && containsNamed(x.Value.Type(), named, 0) {
+								note(x.Pos(), "map update with struct value")
+							}
+						case *ssa.Call:
+							if !elems {
+								continue
+							}
+							if bi, ok := x.Call.Value.(*ssa.Builtin); ok && (bi.Name() == "delete" || bi.Name() == "clear") && len(x.Call.Args) >= 1 {
+								if types.Identical(x.Call.Args[0].Type().Underlying(), fieldT.Underlying()) {
+									note(x.Pos(), "map "+bi.Name())
+								}
+							}
+						}
+					}
+				}
+			}
+		}
+		var keys []string
+		for k := range found {
+			keys = append(keys, k)
+		}
+		sort.Strings(keys)
+		for _, k := range keys {
+			if !allowed[k] {
+				problems = append(problems, "written by "+k+" ("+found[k]+"), which is not a listed writer")
+			}
+		}
+		goal := "true"
+		if len(problems) > 0 {
+			goal = "false"
+		}
+		res.Obls = append(res.Obls, &Obl{Name: "writers{" + wd.Path + "}", Goal: goal, Kind: "writers", Fn: "field-writers", Prop: []string{prop}, Detail: strings.Join(problems, "; ")})
+		res.Notes = append(res.Notes, "writers obligations are syntactic over go/ssa (stores through field addresses, escaping field addresses, whole-struct stores, map updates by map type); reflection and unsafe are not seen")
 	}
 	return res
 }
